@@ -1,5 +1,10 @@
 //! vcheck library: engines shared by the `vcheck` and `vgui` binaries (see /verif/DESIGN.md).
 
+/// root of the verification tree (the directory holding `check`, `fixtures`, `evidence`, ...): VERIF_ROOT or /verif
+pub fn root() -> String {
+    std::env::var("VERIF_ROOT").unwrap_or_else(|_| "/verif".to_string())
+}
+
 pub mod alloc;
 pub mod faults;
 pub mod fixture;
@@ -27,12 +32,13 @@ pub fn selftest() -> Result<(), String> {
 pub fn cli_main(lookup: &dyn Fn(&str) -> Option<Box<dyn runner::Prop>>, special: &dyn Fn(&str, Tier) -> Option<i32>, replay_special: &dyn Fn(&serde_json::Value, &str) -> Option<i32>) {
     // trust / cost seam (DESIGN §2.3): a one-file trust store. OpenSSL reads these variables when it is
     // initialised, so they must be in the environment of the process from the start: re-exec once if needed.
-    if std::env::var("SSL_CERT_FILE").ok().as_deref() != Some("/verif/fixtures/trust.pem") {
+    let trust = format!("{}/fixtures/trust.pem", root());
+    if std::env::var("SSL_CERT_FILE").ok().as_deref() != Some(trust.as_str()) {
         let exe = std::env::current_exe().expect("current_exe");
         let status = std::process::Command::new(exe)
             .args(std::env::args().skip(1))
-            .env("SSL_CERT_FILE", "/verif/fixtures/trust.pem")
-            .env("SSL_CERT_DIR", "/verif/fixtures/empty")
+            .env("SSL_CERT_FILE", &trust)
+            .env("SSL_CERT_DIR", format!("{}/fixtures/empty", root()))
             .status()
             .expect("re-exec");
         std::process::exit(status.code().unwrap_or(2));
